@@ -231,6 +231,11 @@ def _prep_affine_loop(t, fname):
     loop = first(fn, ast.For)
     items = [("x0", assign_rhs(loop, "x0")), ("x1", assign_rhs(loop, "x1")),
              ("newc", call(loop, "new_center.append").args[0])]
+    try:
+        # extra voxels for nearest-neighbour sampling, computed once before the loop
+        items.insert(0, ("margin", assign_rhs(fn, "margin")))
+    except SelectorMiss:
+        pass
     return items, ["x0", "x1", "newc"]
 
 
@@ -2004,3 +2009,22 @@ add("averageIsPlainMean", "Split", ["C09"], "acryo/loader/_base.py", "const", []
                            "dsk = self.construct_dask(output_shape=output_shape, backend=xp)",
                            "dsk = dsk.rechunk(('auto',) + output_shape)",
                            "return xp.asnumpy(dsk.mean(axis=0).compute())")))
+
+
+# ==========================================================================================
+# C13  the writers hand the frame and the requested precision to polars unchanged
+# ==========================================================================================
+def _single_stmt_body(t, qual, want):
+    fn = func(t, qual)
+    body = [st for st in fn.body if not (isinstance(st, ast.Expr) and isinstance(st.value, ast.Constant))]
+    if len(body) != 1 or _unparse_norm(body[0]) != want.replace(" ", ""):
+        raise SelectorMiss(qual + ": body is not the single statement " + want)
+    return True
+
+
+add("writersPassThrough", "Table", ["C13"], _CORE, "const", [],
+    pattern(lambda t: _single_stmt_body(t, "Molecules.to_csv",
+                                        "return self.to_dataframe().write_csv(str(save_path), float_precision=float_precision)")
+            and _single_stmt_body(t, "Molecules.to_parquet",
+                                  "return self.to_dataframe().write_parquet(str(save_path), compression=compression, "
+                                  "compression_level=compression_level)")))
